@@ -348,6 +348,10 @@ class PathView:
         return None
 
     def describe(self, maxfacts=30):
+        """the last guard facts of the path, as text (computed only if a violation is actually recorded)"""
+        return LazyLines(lambda: self._describe(maxfacts))
+
+    def _describe(self, maxfacts=30):
         maxfacts = maxfacts or 30
         lines = ['path (%s exit, request %s), last %d guard facts:' % (self.kind, self.variant, min(maxfacts, len(self.facts)))]
         for f, site, stack in self.facts[-maxfacts:]:
@@ -473,9 +477,20 @@ def transfer_of(msg):
     return None
 
 # ------------------------------------------------------------------ engine
+class LazyLines:
+    """a list of text lines produced on demand"""
+    def __init__(self, fn): self.fn = fn; self.v = None
+    def get(self):
+        if self.v is None: self.v = list(self.fn())
+        return self.v
+    def __iter__(self): return iter(self.get())
+    def __len__(self): return len(self.get())
+    def __getitem__(self, i): return self.get()[i]
+    def __bool__(self): return True
+
 class Violation:
     def __init__(self, prop, rule, key, msg, where=None, detail=None):
-        self.prop = prop; self.rule = rule; self.key = key; self.msg = msg; self.where = where; self.detail = detail or []
+        self.prop = prop; self.rule = rule; self.key = key; self.msg = msg; self.where = where; self.detail = list(detail) if detail else []
 
 class Engine:
     def __init__(self, summ):
